@@ -69,9 +69,15 @@ func guarded(limit time.Duration, f func()) (int, string) {
 
 func cp(a []int) []int { return append([]int{}, a...) }
 
+// A call that does not return cannot be stopped; after maxHangs of them the remaining codec inputs are not executed
+// any more and are reported with panic = 3 (abandoned), so that a run on a hanging implementation ends.
+const maxHangs = 3
+const callLimit = 20 * time.Second
+
 func main() {
 	encs := map[int]*reedsolomon.ReedSolomonEncoder{}
 	decs := map[int]*reedsolomon.ReedSolomonDecoder{}
+	hangs := 0
 	hlib.Main(func(raw []byte) (interface{}, error) {
 		var e ev
 		if err := json.Unmarshal(raw, &e); err != nil {
@@ -126,6 +132,10 @@ func main() {
 				}
 			})
 		case "enc", "dec":
+			if hangs >= maxHangs {
+				e.Panic, e.Msg = 3, "abandoned after repeated hangs"
+				break
+			}
 			r := e.A[0]
 			word := make([]int, len(e.X)+r)
 			copy(word, e.X)
@@ -133,7 +143,7 @@ func main() {
 				word[i] = q - 1 // stale content of the parity area must not matter
 			}
 			enc := encs[e.F]
-			e.Panic, e.Msg = guarded(30*time.Second, func() {
+			e.Panic, e.Msg = guarded(callLimit, func() {
 				if err := enc.Encode(word, r); err != nil {
 					e.Err = 1
 					e.Msg = err.Error()
@@ -142,6 +152,7 @@ func main() {
 			e.Y = cp(word)
 			if e.Panic == 2 {
 				encs[e.F] = nil
+				hangs++
 			}
 			if e.Op == "dec" && e.Panic == 0 && e.Err == 0 {
 				rcv := cp(word)
@@ -152,12 +163,13 @@ func main() {
 				}
 				e.W = cp(rcv)
 				dec := decs[e.F]
-				e.Dpanic, e.Msg = guarded(30*time.Second, func() {
+				e.Dpanic, e.Msg = guarded(callLimit, func() {
 					if err := dec.Decode(rcv, r); err != nil {
 						e.Derr = 1
 					}
 				})
 				if e.Dpanic == 2 {
+					hangs++
 					e.Z = []int{}
 				} else {
 					e.Z = cp(rcv)
